@@ -586,6 +586,14 @@ func expandParameterOrResponse(input interface{}, resolver *schemaLoader, basePa
 			} else {
 				sch.Ref = rebasedRef
 			}
+
+			// the $ref is now final and written relative to the root document:
+			// it must not be read again relative to the document we are in
+			if ref != nil {
+				*ref = Ref{}
+			}
+
+			return nil
 		}
 	}
 
